@@ -52,7 +52,14 @@ def interp(this, extra=None):
     base = {"mFptr": None, "mAction": READ | WRITE, "mFileOffset": 0, "mFileType": 0, "mNrows": 0, "mRowSize": 0, "mDebug": False,
             "mSizes": [], "mOffsets": [], "mNames": [], "mNfields": 0, "mData": None, "mReadAsWhitespace": False}
     base.update(this)
-    return castxx.CxxInterp([tu()], base, intrinsics=_intr(extra))
+    I = castxx.CxxInterp([tu()], base, intrinsics=_intr(extra))
+    # NumPy's type numbers (the filtered AST dump does not contain the header's enum): values of this platform
+    for k, v in {"NPY_BOOL": 0, "NPY_BYTE": 1, "NPY_UBYTE": 2, "NPY_SHORT": 3, "NPY_USHORT": 4, "NPY_INT": 5, "NPY_UINT": 6, "NPY_LONG": 7, "NPY_ULONG": 8,
+                 "NPY_LONGLONG": 9, "NPY_ULONGLONG": 10, "NPY_FLOAT": 11, "NPY_DOUBLE": 12, "NPY_OBJECT": 17, "NPY_STRING": 18, "NPY_UNICODE": 19, "NPY_VOID": 20,
+                 "NPY_INT8": 1, "NPY_UINT8": 2, "NPY_INT16": 3, "NPY_UINT16": 4, "NPY_INT32": 5, "NPY_UINT32": 6, "NPY_INT64": 7, "NPY_UINT64": 8,
+                 "NPY_FLOAT32": 11, "NPY_FLOAT64": 12}.items():
+        I.enums.setdefault(k, v)
+    return I
 
 
 # ---- C01: header framing ---------------------------------------------------------
